@@ -258,7 +258,7 @@ ADDED_B11 = {
     "C02": "Added after the eleventh batch: C02.20 the optional-field wrapper prints the null branch on every path (the object schema recognises optional properties by it).",
     "C03": "Added after the eleventh batch: C03.15 a parseAfterValidation that throws on non-object member results is backed by a validate() that rejects non-objects.",
     "C04": "Added after the eleventh batch: C04.8 in the counted loops of the subtyping engine a vector indexed by the counter is guarded or tied to the bound (length at start, padded wherever the bound is raised).",
-    "C05": "Added after the eleventh batch: C05.11 an accumulated list prefix is padded with its own rest element (found and guards fix 258f690); mixed-family or-patterns over atoms touch no family table.",
+    "C05": "Added after the eleventh batch: C05.11 an accumulated list prefix is padded with its own rest element (found and guards fix 258f690); mixed-family or-patterns over atoms touch no family table. C05.12: an `empty` answer memoised while an outer emptiness question is open (under the assumption that the open type is empty) is revoked when that question turns out not empty - log length taken before the computation, own key logged on the empty outcome, revoker removes from the entry point's own table back to exactly that length (guards fix 16acbbb: [Y, X] extends never was decided differently from [X, Y] extends never).",
     "C07": "Added after the eleventh batch: C07.6 also rejects arms that bind the table index of two atom families to one name.",
     "C08": "Added after the eleventh batch: C08.3 converters keep the optionality of members.",
     "C09": "Added after the eleventh batch: C09.14 in type position the tables of local type declarations are asked before the import table.",
